@@ -205,6 +205,10 @@ def run(ctx):
 
     _isomorphic(ctx)
 
+    # ---- R6 ----------------------------------------------------------------------
+    from .c08 import wrapper_kind
+    wrapper_kind(ctx, 'C04.R6')
+
 
 def _isomorphic(ctx):
     """R5: whose signature is introspected.  @beartype checks a ``functools.wraps`` wrapper against the
@@ -248,3 +252,28 @@ def _isomorphic(ctx):
     ctx.ob('C04.R5', 'reinit:unwraps-only-isomorphic-wrappers', cm.where(uses[0]) if uses else 'beartype/_check/cls/call/calldatadecorfunc.py:0',
            'the decorated callable is unwrapped through unwrap_func_all_isomorphic only', bool(uses) and not any(
                isinstance(c, ast.Call) and dotted(c.func) == 'unwrap_func_all' for c in ast.walk(cm.tree)), f'{[norm(c)[:60] for c in uses]}')
+
+
+def keywordable_set(ctx, RULE):
+    """The names excluded from the **kwargs check are exactly the flexible and keyword-only parameters (shared with C01:
+    a named parameter passed by keyword must not be checked against the **kwargs hint)."""
+    N = _wrap.names(ctx)
+    KWABLE = N['KEYWORDABLE']
+    W = 'beartype/_decor/_nontype/_wrap/_wrapargs.py:0'
+    ctx.rule(RULE, 'for every abstract callable with **kwargs the set of names the generated wrapper excludes from the '
+             '**kwargs check is exactly {flexible and keyword-only parameter names}, annotated or not — a named parameter '
+             'passed by keyword is not an excess keyword argument')
+    n, bad, bad2 = 0, None, None
+    for f, r, facts in _wrap.wrappers(ctx):
+        if r.raised is not None or not r.code:
+            continue
+        n += 1
+        present = KWABLE in r.scope
+        if present != bool(f.varkw) and bad is None:
+            bad = f'{f.describe()}: keywordable set in scope={present}, has **kwargs={bool(f.varkw)}'
+        if present:
+            kw = r.scope.get(KWABLE)
+            if not (isinstance(kw, set) and kw == set(f.flex) | set(f.kwonly)) and bad2 is None:
+                bad2 = f'{f.describe()}: keywordable={sorted(kw) if isinstance(kw, set) else kw}, expected {sorted(set(f.flex) | set(f.kwonly))}'
+    ctx.ob(RULE, 'keywordable-iff-varkw', W, f'the set exists iff the callable has **kwargs ({n} wrappers)', bad is None, bad or '')
+    ctx.ob(RULE, 'keywordable-set', W, f'the set is exactly the keywordable parameter names ({n} wrappers)', bad2 is None, bad2 or '')
